@@ -98,7 +98,7 @@ def check(drv, pid, tier, seed):
         return 2
     cfg = PROPS[pid]
     t0 = time.time()
-    ok, info = drv.build_all()
+    ok, info = drv.build_all(bool(cfg.get('race')))
     if not ok:
         stage = info.get('stage')
         if stage in ('coq', 'hygiene', 'genparams'):
